@@ -87,7 +87,72 @@ def ref():
     return _REF
 
 
-def check(ctx, prog, scope, floor=1):
+def const_normal(prog, f, depth=0):
+    """value of a generic constant's initialiser as a polynomial-like normal form over the const parameters: references to other
+    constants (evaluated or generic) are expanded, sums are collected.  `A + S1 + S2 + 2` and `OTHER::MAX` are the same thing when
+    OTHER::MAX is that sum.  None when the initialiser is not of this arithmetic kind (then the plain normal form is compared)."""
+    from ..sym import Sym, strip
+
+    def lin(e, d):
+        e = strip(e)
+        if d > 8:
+            return None
+        if e[0] == "const":
+            if isinstance(e[1], int):
+                return {(): e[1]}
+            name = e[2] or ""
+            gs = prog.by_path.get(name)
+            if gs and len(gs) == 1 and "Const" in (gs[0].kind or ""):
+                return lin(Sym(gs[0]).local(0), d + 1)
+            return {(name,): 1}
+        if e[0] == "cast":
+            return lin(e[1], d + 1)
+        if e[0] == "bin" and e[1] in ("Add", "Sub"):
+            a, b = lin(e[2], d + 1), lin(e[3], d + 1)
+            if a is None or b is None:
+                return None
+            out = dict(a)
+            for k, v in b.items():
+                out[k] = out.get(k, 0) + (v if e[1] == "Add" else -v)
+            return {k: v for k, v in out.items() if v != 0 or k == ()}
+        if e[0] == "bin" and e[1] == "Mul":
+            a, b = lin(e[2], d + 1), lin(e[3], d + 1)
+            if a is None or b is None:
+                return None
+            out = {}
+            for ka, va in a.items():
+                for kb, vb in b.items():
+                    k = tuple(sorted(ka + kb))
+                    out[k] = out.get(k, 0) + va * vb
+            return out
+        return None
+
+    def show(l):
+        return " + ".join("%s%s" % (("%d" % v) if not k else ("" if v == 1 else "%d*" % v), "*".join(k)) for k, v in sorted(l.items()) if v != 0 or not k) or "0"
+    e = strip(Sym(f).local(0))
+    if e[0] == "const" and e[1] is None and depth < 6:
+        gs = prog.by_path.get(e[2] or "")
+        if gs and len(gs) == 1 and "Const" in (gs[0].kind or ""):
+            return const_normal(prog, gs[0], depth + 1)
+    if e[0] == "bin" and e[1] in ("Eq", "Ne", "Lt", "Le", "Gt", "Ge"):
+        a, b = lin(e[2], 0), lin(e[3], 0)
+        if a is None or b is None:
+            return None
+        return "%s(%s, %s)" % (e[1], show(a), show(b))
+    l = lin(e, 0)
+    return show(l) if l is not None else None
+
+
+def check_consts(ctx, prog, floor=10):
+    """generic constants (associated constants over const parameters: MAX_LEN_IN_STR, MAX_BLOCK_HASH_SIZE_n, IS_LONG_FORM, ...) cannot
+    be evaluated without instantiating them; the driver dumps their initialisers as bodies, and those expressions are the reviewed ones"""
+    paths = sorted(p for p, fs in prog.by_path.items() if len(fs) == 1 and "Const" in (fs[0].kind or ""))
+    if not paths:
+        return ctx.floor(R, 0, floor, "initialisers of generic constants")
+    return check(ctx, prog, "^(" + "|".join(re.escape(p) for p in paths) + ")$", floor=floor, what="initialisers of generic constants")
+
+
+def check(ctx, prog, scope, floor=1, what="branch-free bodies in scope"):
     ctx.rule(R, "branch-free bodies (accessors, delegators, constructors) have the normal form - returned expression, stores, `&mut` hand-offs, with resolved callees and positional parameters - recorded for the reviewed tree")
     rx = re.compile(scope)
     refs = ref()
@@ -114,6 +179,12 @@ def check(ctx, prog, scope, floor=1):
             ctx.deferred.append((R, "%s is branch-free and has its reviewed value" % f.short, "no longer branch-free, and no other rule of this check reads the body", f.loc(), prog.cfg, (prog.cfg, f.path)))
             continue
         ctx.visit(f)
+        if "Const" in (f.kind or ""):
+            cn = const_normal(prog, f)
+            want_cn = ent.get("const_normal")
+            if cn is not None and want_cn is not None:
+                ctx.ob(R, "%s is branch-free and has its reviewed value" % f.short, cn == want_cn, "value over the const parameters: %s%s" % (cn, "" if cn == want_cn else " (reviewed: %s)" % want_cn), f.loc())
+                continue
         got = summary(f)
         # values are def-use expressions, so the ORDER of independent effects carries no information: compare as multisets
         ok = sorted(got) == sorted(want)
@@ -126,7 +197,7 @@ def check(ctx, prog, scope, floor=1):
             else:
                 why = "%d lines, reviewed %d: %s" % (len(got), len(want), (got[len(want):] or want[len(got):])[:2])
         ctx.ob(R, "%s is branch-free and has its reviewed value" % f.short, ok, why, f.loc())
-    ctx.floor(R, n, floor, "branch-free bodies in scope")
+    ctx.floor(R, n, floor, what)
 
 
 # ---- path summaries: loop-free, store-free bodies with a few result sites ------------------------------------------------------------
